@@ -1,0 +1,28 @@
+//go:build verif
+
+package comb
+
+import "reflect"
+
+// Verification hook (build tag "verif" only): expose the built-in tables as they are after package
+// initialisation, whatever their declared shape (slice or array, literal or filled by init).
+// Add-only; nothing here changes the package's behaviour.
+
+func verifUints(v reflect.Value) []uint64 {
+	out := make([]uint64, v.Len())
+	for i := range out {
+		out[i] = v.Index(i).Uint()
+	}
+	return out
+}
+
+//VerifTables returns copies of maxSizes and smallEntries and the constants largestK and maxInt.
+func VerifTables() (sizes []uint64, entries [][]uint64, k uint64, maxint uint64) {
+	sizes = verifUints(reflect.ValueOf(maxSizes))
+	e := reflect.ValueOf(smallEntries)
+	entries = make([][]uint64, e.Len())
+	for i := range entries {
+		entries[i] = verifUints(e.Index(i))
+	}
+	return sizes, entries, uint64(largestK), uint64(maxInt)
+}
